@@ -38,7 +38,7 @@ def check_c04(ck, tier, replay=None):
     ck.units += ['csg/src/tools/csg_stat_imc.cc (Imc::MergeWorker, ClearAverages, DoCorrelations)', 'tools/include/votca/tools/average.h', 'tools/src/libtools/histogramnew.cc, table.cc (storage of the averages)']
     ck.functions.update(common.ir_func_sizes(mod, r'^@h_|Imc11MergeWorker|Imc13ClearAverages|Imc14DoCorrelations'))
     ck.assumptions += ['exact reals', 'raw Imc object with one non-bonded interaction (and one IMC group holding it) set up by the harness; per-frame histograms and volumes are symbolic inputs to the real MergeWorker',
-                       'WriteDist / WriteIMCData / WriteIMCBlock (file output) are call-recording stubs; histogram filling from the neighbour search, normalisation of the written tables and the executables are outside this check']
+                       'in the averaging obligations WriteDist / WriteIMCData / WriteIMCBlock are call-recording stubs; the normalisation in WriteDist is checked separately with Table::Save capturing the table; histogram filling from the neighbour search, the pair-count norm_, CalcDeltaS, WriteIMCData and the executables are outside this check']
     parsed = {}; found = []; calls = []
     NB = 2 if tier == 'quick' else 3
     for k in (1, 2, 3):
@@ -66,6 +66,44 @@ def check_c04(ck, tier, replay=None):
             goal = [co[a * NB + b] * k == sum(hs[f][a] * hs[f][b] for f in range(k)) for a in range(NB) for b in range(NB)]
             s_, mdl = smt.prove(ck, 'IMC, %d frame(s): correlation matrix = frame average of the outer product of the per-frame histograms (symmetric)' % k, list(it.pc), [z3.Not(z3.And(goal))], TO, probe=[z3.Real('free') * k != hs[0][0] * hs[0][0]])
             if s_ == 'sat': found.append(('imc correlation', 'k=%d' % k, mdl))
+    # ---- WriteDist normalisation (Table::Save captured) ----
+    import math
+    PI = F(math.pi)
+    for bonded in (0, 1):
+        nb_ = 3
+        avg = [z3.Real('a%d' % i) for i in range(nb_)]; norm, step, xmin, vol = z3.Reals('norm step xmin vol')
+        saved = []
+        M = imc_models(calls)
+        def save(it, a):
+            t = a[0]; n = symx.sgn64(it.call('@h_table_size', [t]))
+            saved.append(([it.call('@h_table_x', [t, i]) for i in range(n)], [it.call('@h_table_y', [t, i]) for i in range(n)])); return None
+        M['re:^@_ZNK5votca5tools5Table4SaveE'] = save
+        M['re:^@_ZSt4cout'] = None
+        def body(it):
+            del saved[:]
+            it.assume(z3.And(step > 0, vol > 0, norm > 0))
+            if bonded: it.assume(z3.And([a >= 0 for a in avg] + [sum(avg[1:], avg[0]) > 0]))
+            imc = it.call('@h_imc_setup', [nb_, 0, 0]); pa = alloc_doubles(it, 'avg', avg)
+            it.call('@h_imc_state', [imc, pa, nb_, bonded, norm, step, xmin, vol]); it.call('@h_imc_writedist', [imc])
+            return list(saved)
+        M = {k: v for k, v in M.items() if v is not None and 'WriteDist' not in k}      # here the real WriteDist runs
+        res, st = explore(mod, M, body, parsed=parsed, max_paths=200); ck.stubs |= st['models_used'] | {'Table::Save -> capture of the table it is given'}
+        ck.add_witness('WriteDist (%s): %d paths, one table saved on each' % ('bonded' if bonded else 'non-bonded', len(res)), len(res) >= 1 and all(len(s) == 1 for _, s in res))
+        for it, sv in res:
+            if len(sv) != 1: continue
+            xs, ys = sv[0]; goal = []
+            for i in range(nb_):
+                xi = xmin + i * step
+                if bonded:
+                    tot = sum([z3.If(a >= 0, a, -a) for a in avg[1:]], z3.If(avg[0] >= 0, avg[0], -avg[0]))
+                    goal.append(ys[i] * tot * step == norm * avg[i])
+                else:
+                    x1 = xi - step / 2; x2 = x1 + step
+                    # the code's 4./3.*M_PI is folded by the compiler into one double; the same IEEE product is used here
+                    shell = z3.RealVal(F(4.0 / 3.0 * math.pi)) * (x2 * x2 * x2 - x1 * x1 * x1)
+                    goal.append(z3.If(x1 < 0, ys[i] == 0, ys[i] * shell == vol * norm * avg[i]))
+            s_, mdl = smt.prove(ck, 'WriteDist %s: written value = %s' % ('bonded' if bonded else 'non-bonded', 'norm * avg_i / (sum|avg| * step)' if bonded else '<V> * norm * avg_i / (4/3 pi (x2^3 - x1^3)) with x1 = x_i - step/2, zero where x1 < 0'), list(it.pc), [z3.Not(z3.And(goal))], TO, probe=[z3.Real('free') != vol * norm * avg[0], vol > 0, norm > 0])
+            if s_ == 'sat': found.append(('WriteDist normalisation', 'bonded' if bonded else 'non-bonded', mdl))
     ck.bounds.update({'bins': NB, 'frames': '<= 3', 'interactions': 1, 'block length': '0 and 2'})
     for tag, what, mdl in found:
         rep = common.write_replay('C04', tag + what, {}, {'tag': tag, 'what': what, 'model': mdl})
